@@ -183,8 +183,37 @@ pub struct AssignBody { pub dest: ExprIdx, pub value: ExprIdx }
 pub mod hir { #[derive(Clone, Copy)] pub struct BinaryOp(pub u8); }
 pub uninterp spec fn expr_ty(e: ExprIdx) -> Ty;
 pub uninterp spec fn spec_ty_max(a: Ty, b: Ty) -> Option<Ty>;
-pub struct FunctionCompiler { pub builder: FunctionBuilder, pub module: Module, pub ptr_ty: types::Type }
+#[derive(Clone, Copy)] pub struct LocalDefIdx(pub u32);
+// `self.locals: FxHashMap<Idx<hir::LocalDef>, Value>`: the address of every local (ghost view)
+pub struct LocalMap { pub m: Ghost<Map<u32, Value>> }
+impl LocalMap {
+    #[verifier::external_body]
+    pub fn insert(&mut self, k: LocalDefIdx, v: Value) ensures final(self).m@ == old(self).m@.insert(k.0, v) { unimplemented!() }
+}
+pub uninterp spec fn local_ty(l: LocalDefIdx) -> Ty;
+/// stack slots are never destroyed or resized while a function is compiled
+pub open spec fn slots_grow(a: FunctionBuilder, b: FunctionBuilder) -> bool {
+    forall|s: int| a.slots@.dom().contains(s) ==> #[trigger] b.slots@.dom().contains(s) && b.slots@[s] == a.slots@[s]
+}
+pub struct FunctionCompiler { pub builder: FunctionBuilder, pub module: Module, pub ptr_ty: types::Type, pub locals: LocalMap }
 impl FunctionCompiler {
+    #[verifier::external_body]
+    pub fn ty_of_local(&self, l: LocalDefIdx) -> (r: Intern<Ty>) ensures *r.0 == local_ty(l) { unimplemented!() }
+    // `self.world_bodies[self.loc.file()][local_def].value`: the initialiser, if any
+    #[verifier::external_body]
+    pub fn local_value(&self, l: LocalDefIdx) -> (r: Option<ExprIdx>) { unimplemented!() }
+    // ASSUMED: compiling an initialiser into a destination (or default-initialising it) emits
+    // code, may create further slots and locals, and destroys none
+    #[verifier::external_body]
+    pub fn compile_and_cast_into_memory(&mut self, expr: ExprIdx, cast_to: Intern<Ty>, memory: MemoryLoc) -> (r: Option<Value>)
+        requires loc_wf(memory)
+        ensures slots_grow(old(self).builder, final(self).builder), log_extends(old(self).builder.log@, final(self).builder.log@), final(self).ptr_ty == old(self).ptr_ty
+    { unimplemented!() }
+    #[verifier::external_body]
+    pub fn store_default_in_memory(&mut self, expected_ty: Intern<Ty>, memory: MemoryLoc)
+        requires loc_wf(memory)
+        ensures slots_grow(old(self).builder, final(self).builder), log_extends(old(self).builder.log@, final(self).builder.log@), final(self).ptr_ty == old(self).ptr_ty
+    { unimplemented!() }
     #[verifier::external_body]
     pub fn ty_of(&self, e: ExprIdx) -> (r: Intern<Ty>) ensures *r.0 == expr_ty(e) { unimplemented!() }
     // ASSUMED: a binary operation yields a scalar of the common type of its operands and
@@ -235,6 +264,25 @@ u.extract(F, 'impl FunctionCompiler<\'_>::fn compile_stmt', key='quick_assign_st
         // the only bytes written are those of the destination
         frame(old(self).builder, final(self).builder, dest, tsize(*dest_ty.0) as int),
 ''')
+
+# ---- a local definition gets a stack slot of its own (Stmt::LocalDef arm, R5: lifted) -----------
+u.extract(F, 'impl FunctionCompiler<\'_>::fn compile_stmt', key='stmt_local_def',
+          wrap=('impl FunctionCompiler {', '}'),
+          rewrites=[Rewrite('R4', r'self\.tys\[self\.loc\]\[local_def\]', 'self.ty_of_local(local_def)', count=1, why='typing table lookup -> shim `ty_of_local` (uninterpreted local_ty)'),
+                    Rewrite('R4', r'self\.world_bodies\[self\.loc\.file\(\)\]\[local_def\]\.value', 'self.local_value(local_def)', count=1, why='lookup in the hir bodies -> shim (uninterpreted)'),
+                    Rewrite('R6', r'debug!\([^;]*\);', '', count=None, why='logging dropped')],
+          lift=dict(anchor='hir::Stmt::LocalDef(local_def) =>', sig='fn stmt_local_def(&mut self, local_def: LocalDefIdx)',
+                    why='the Stmt::LocalDef arm of compile_stmt lifted into a method'),
+          contract="""
+    ensures
+        // "aggregates are copied on assignment": the local lives at offset 0 of a stack slot that
+        // did not exist before this statement and is exactly as large as its type -- it shares
+        // no memory with any value that was live before
+        final(self).locals.m@.dom().contains(local_def.0),
+        final(self).locals.m@[local_def.0].den@ is Addr,
+        ptr_off(final(self).locals.m@[local_def.0]) == 0,
+        fresh_slot(old(self).builder, final(self).builder, ptr_base(final(self).locals.m@[local_def.0]), tsize(local_ty(local_def)) as int),
+""")
 
 # ---- nil values (create_nil_value) and the nil branch of the optional -> optional cast ----------
 CV = 'crates/codegen/src/convert.rs'
@@ -606,6 +654,8 @@ MUTANTS = [
     (M, '            let to_offset = to_layout.offsets()[to_idx];', '            let to_offset = from_layout.offsets()[to_idx];', 'violation'),
     (M, '            let dest = result_mem.with_offset(to_offset);\n\n            let src = if from_ty.is_aggregate() {', '            let dest = result_mem.with_offset(from_offset);\n\n            let src = if from_ty.is_aggregate() {', 'violation'),
     (M, '            let from_offset = from_sub_stride * idx;\n            let to_offset = to_sub_stride * idx;', '            let to_offset = to_sub_stride * idx;\n            let from_offset = from_sub_stride * idx;', 'ok'),
+    # a local takes over the address its initialiser returned (no slot of its own)
+    (F, '                    self.compile_and_cast_into_memory(value, ty, memory);\n                } else {\n                    debug!("store default', '                    if let Some(v) = self.compile_and_cast_into_memory(value, ty, memory) { self.locals.insert(local_def, v); return; }\n                } else {\n                    debug!("store default', 'violation'),
     # others
     (M, 'memory.write_val(builder, discrim, enum_layout.discriminant_offset() as i32);', 'memory.write_val(builder, discrim, enum_layout.discriminant_offset() as i32 + 1);', 'violation'),
     (M, '                    .stack_store(x, slot, offset + self.offset as i32)', '                    .stack_store(x, slot, offset)', 'violation'),
